@@ -209,6 +209,23 @@ def api_calls():
         p.compute_caps()
         return np.array(oqupy.compute_dynamics(oqupy.System(h), initial_state=a["rho"], process_tensor=p,
                                                progress_type="silent").states)
+    def bathdyn(a):
+        from oqupy import bath_dynamics
+        bath = oqupy.Bath(0.5 * SZ, corr())
+        sysm = oqupy.System(0.5 * SX + 0.1 * SZ)
+        b = bath_dynamics.TwoTimeBathCorrelations(sysm, bath, a["pt"], initial_state=a["rho"], system_correlations=a["syscorr"])
+        occ = b.occupation(1.3, progress_type="silent")[1]
+        c1 = b.correlation(1.3, 0.1, time_2=0.2, progress_type="silent")
+        return np.concatenate([np.array(occ, dtype=complex), [c1]])
+
+    def bathdyn_args():
+        bath = oqupy.Bath(0.5 * SZ, corr())
+        pt = oqupy.PtTempo(bath, 0.0, 0.31, oqupy.TempoParameters(dt=0.1, epsrel=1e-7, dkmax=2)).get_process_tensor(
+            progress_type="silent")
+        _, cc = oqupy.compute_correlations(oqupy.System(0.5 * SX + 0.1 * SZ), pt, 0.5 * SZ, 0.5 * SZ, slice(3), slice(3),
+                                           initial_state=RHO, progress_type="silent")
+        return {"syscorr": cc, "rho": RHO, "pt": pt}
+    calls["TwoTimeBathCorrelations"] = (bathdyn_args, bathdyn)
     calls["SimpleProcessTensor"] = ({"t0": np.eye(4, dtype=complex).reshape(1, 1, 4, 4) * 1.0, "rho": RHO}, pt_set)
     return calls
 
@@ -218,18 +235,24 @@ def layout_job(job):
     args, fn = api_calls()[name]
     out = []
     try:
-        ref = fn({k: layouts(v)["C"] for k, v in args.items()})
+        if callable(args):
+            args = args()
+        fixed = {k: v for k, v in args.items() if not isinstance(v, np.ndarray)}
+        args = {k: v for k, v in args.items() if isinstance(v, np.ndarray)}
+        ref = fn(dict(fixed, **{k: layouts(v)["C"] for k, v in args.items()}))
         given = {k: layouts(v)[lay] for k, v in args.items()}
         pristine = {k: np.array(v, copy=True) for k, v in given.items()}
         flags = {k: (v.flags.writeable, v.strides) for k, v in given.items()}
+        given_all = dict(fixed, **given)
         try:
-            res = fn(given)
+            res = fn(given_all)
         except Exception as ex:  # pylint: disable=broad-except
             return [{"what": "layout-rejected", "detail": "%s: %s" % (type(ex).__name__, str(ex)[:120])}]
         if res.shape != ref.shape or np.max(np.abs(res - ref)) > 1e-12:
             out.append({"what": "layout-changes-result", "err": float(np.max(np.abs(res - ref))) if res.shape == ref.shape else "shape"})
         for k, v in given.items():
-            if not np.array_equal(v, pristine[k]) or (v.flags.writeable, v.strides) != flags[k]:
+            # bytes, not values: a caller's NaN entries must stay NaN
+            if v.tobytes() != pristine[k].tobytes() or (v.flags.writeable, v.strides) != flags[k]:
                 out.append({"what": "argument-mutated", "argument": k})
     except Exception as ex:  # pylint: disable=broad-except
         import traceback
@@ -251,6 +274,7 @@ def shared_objects():
     sysm = oqupy.System(0.5 * SX + 0.1 * SZ)
     bdyn = bath_dynamics.TwoTimeBathCorrelations(sysm, bath, pt, initial_state=RHO.copy())
     return {"system": sysm, "bath": bath, "params": params, "pt": pt, "ctrl": ctrl, "bdyn": bdyn,
+            "params_nomem": oqupy.TempoParameters(dt=0.1, epsrel=1e-7, dkmax=None),
             "rho": RHO.copy(), "psys": oqupy.ParameterizedSystem(lambda x, y: x * SX + y * SZ),
             "pars": np.array([[0.3, 0.1]] * 6)}
 
@@ -262,6 +286,11 @@ def use(kind, o):
     if kind == "pttempo":
         pt = oqupy.PtTempo(o["bath"], 0.0, 0.31, o["params"]).get_process_tensor(progress_type="silent")
         return np.array(oqupy.compute_dynamics(o["system"], initial_state=o["rho"], process_tensor=pt, progress_type="silent").states)
+    if kind == "pttempo-nomem-short":
+        pt = oqupy.PtTempo(o["bath"], 0.0, 0.21, o["params_nomem"]).get_process_tensor(progress_type="silent")
+        return np.array(oqupy.compute_dynamics(o["system"], initial_state=o["rho"], process_tensor=pt, progress_type="silent").states)
+    if kind == "tempo-nomem-long":
+        return np.array(oqupy.Tempo(o["system"], o["bath"], o["params_nomem"], o["rho"], 0.0).compute(0.61, progress_type="silent").states)
     if kind == "dynamics":
         return np.array(oqupy.compute_dynamics(o["system"], initial_state=o["rho"], process_tensor=o["pt"], control=o["ctrl"],
                                                progress_type="silent").states)
@@ -289,11 +318,45 @@ def use(kind, o):
     raise ValueError(kind)
 
 
+def _freeze(v, depth=0):
+    """hashable, comparable image of a public attribute value (None = not comparable)"""
+    if isinstance(v, np.ndarray):
+        return ("nd", v.shape, str(v.dtype), v.tobytes())
+    if isinstance(v, (bool, int, float, complex, str, type(None), np.number)):
+        return ("v", repr(v))
+    if isinstance(v, (list, tuple)) and depth < 3:
+        return ("seq", tuple(_freeze(x, depth + 1) for x in v))
+    if isinstance(v, dict) and depth < 3:
+        return ("map", tuple(sorted((repr(k), _freeze(x, depth + 1)) for k, x in v.items())))
+    return None
+
+
+def public_state(obj):
+    """values of the public (property / plain) attributes of a caller-supplied object"""
+    out = {}
+    names = [n for n in dir(type(obj)) if not n.startswith("_") and isinstance(getattr(type(obj), n, None), property)]
+    names += [n for n in getattr(obj, "__dict__", {}) if not n.startswith("_")]    # private caches are not parameters
+    for n in sorted(set(names)):
+        try:
+            v = getattr(obj, n)
+        except Exception:  # pylint: disable=broad-except
+            continue
+        f = _freeze(v)
+        if f is not None:
+            out[n] = f
+    return out
+
+
+PARAM_OBJECTS = ("system", "bath", "params", "params_nomem", "ctrl", "psys")
+
+
 def reuse_job(case):
     out = []
     try:
         o = shared_objects()
         snap = {k: np.array(v, copy=True) for k, v in o.items() if isinstance(v, np.ndarray)}
+        psnap = {k: public_state(o[k]) for k in PARAM_OBJECTS}
+        psnap["correlations"] = public_state(o["bath"].correlations)
         for idx, h in enumerate(case["hist"]):
             fresh = use(h["arg"], shared_objects())
             got = use(h["arg"], o)
@@ -304,6 +367,12 @@ def reuse_job(case):
         for k, v in snap.items():
             if not np.array_equal(o[k], v):
                 out.append({"what": "shared-array-mutated", "which": k})
+        after = {k: public_state(o[k]) for k in PARAM_OBJECTS}
+        after["correlations"] = public_state(o["bath"].correlations)
+        for k, v in psnap.items():
+            changed = sorted(n for n in set(v) | set(after[k]) if v.get(n) != after[k].get(n))
+            if changed:
+                out.append({"what": "parameter-object-modified", "which": k, "attributes": changed[:5]})
     except Exception as ex:  # pylint: disable=broad-except
         import traceback
         out.append({"what": "exception", "detail": "%s: %s" % (type(ex).__name__, str(ex)[:150]), "tb": traceback.format_exc()[-300:]})
@@ -351,7 +420,7 @@ def run(ctx):
                 cid, i, h["op"], g, w), {"history": c})
     # (B) layouts and mutation
     names = sorted(api_calls().keys()) if False else ["Tempo", "compute_dynamics", "compute_correlations", "state_gradient",
-                                                      "PtTebd", "MeanFieldTempo", "SimpleProcessTensor"]
+                                                      "PtTebd", "MeanFieldTempo", "SimpleProcessTensor", "TwoTimeBathCorrelations"]
     ljobs = [(n, lay) for n in names for lay in ("F", "strided", "readonly")]
     for (n, lay), mm in zip(ljobs, core.pmap(layout_job, ljobs)):
         ctx.case({"api": n, "layout": lay}, nontrivial=True)
@@ -360,7 +429,7 @@ def run(ctx):
                 raise core.MachineryError(x["detail"])
             ctx.violation("C20:%s:%s" % (n, x["what"]), "api=%s layout=%s: %s" % (n, lay, x), {"layout": [n, lay]})
     # (C) reuse of shared objects
-    kinds = '{"tempo", "pttempo", "dynamics", "correlations", "gradient", "tebd", "bathcorr-early", "bathcorr-late", "bathocc"}'
+    kinds = '{"tempo", "pttempo", "dynamics", "correlations", "gradient", "tebd", "bathcorr-early", "bathcorr-late", "bathocc", "pttempo-nomem-short", "tempo-nomem-long"}'
     ru = ctx.tlc("ObjectGraph", CFG_USE, label="sequences of computations re-using shared objects", workers=2,
                  constants=dict(consts, Devs="{}", MaxOps="2" if quick else "3", UseKinds=kinds))
     for c, mm in zip(ru.cases, core.pmap(reuse_job, ru.cases)):
@@ -368,7 +437,7 @@ def run(ctx):
         for x in mm:
             ctx.violation("C20:reuse:%s" % x["what"], "%s: %s" % ([h["arg"] for h in c["hist"]], x), {"reuse": c})
     ctx.rule = ("(A) every history of ObjectGraph.tla (set / correlation / 2D integral with 2 argument tuples / build bath / "
-                "bath attribute / bath correlation / computation) of exactly MaxOps operations; (B) 7 APIs x {Fortran, strided, "
+                "bath attribute / bath correlation / computation) of exactly MaxOps operations; (B) 8 APIs x {Fortran, strided, "
                 "read-only} arrays; (C) every sequence of computations from the spec re-using shared objects; non-trivial (A) = "
                 "contains a parameter update")
     ctx.exhaustive = quick is True
